@@ -30,6 +30,7 @@ let value_of_token (t : string) : value =
   | 'u' -> VU32 (z_of_string r)
   | 's' -> if r = "-" then VStr [] else VStr (bytes_of_hex r)
   | 'b' -> VBool (r = "1")
+  | 'p' -> VPtr
   | 'l' -> if r = "-" then VList [] else VList (List.map bytes_of_hex (String.split_on_char ':' r))
   | _ -> failwith "bad value"
 let token_of_value = function
@@ -38,6 +39,7 @@ let token_of_value = function
   | VStr [] -> "s-"
   | VStr l -> "s" ^ hexs l
   | VBool b -> if b then "b1" else "b0"
+  | VPtr -> "p"
   | VList [] -> "l-"
   | VList l -> "l" ^ String.concat ":" (List.map hexs l)
 let token_of_sval = function
@@ -77,6 +79,7 @@ let show_res = function
   | RNoChanges -> "nochanges" | RPrecommit -> "precommit" | RApplyFail -> "applyfail" | RFrrTest -> "frrtest"
   | RFrrReload -> "frrreload" | RStartupSave -> "startupsave" | RVersionSave -> "versionsave"
   | RBadVersion -> "badversion" | RBadVerType -> "badvertype" | RNotImpl -> "notimpl" | RModelFuel -> "MODELFUEL"
+  | RInadmissible -> "INADMISSIBLE" | RBootErr -> "booterr" | RBootVersion -> "bootversion"
 let show_ev = function
   | EApply (p, v, ok) -> (if ok then "A:" else "A!") ^ string_of_path p ^ "=" ^ token_of_value v
   | ERollback (p, v, ok) -> (if ok then "R:" else "R!") ^ string_of_path p ^ "=" ^ token_of_value v
@@ -84,7 +87,7 @@ let show_ev = function
   | EFrrReload -> "F:reload"
 let csv_nats (s : string) : nat list =
   if s = "-" then [] else List.map (fun x -> nat_of_int (int_of_string x)) (String.split_on_char ',' s)
-let kind_of = function "L" -> KList | "A" -> KAny | "I" -> KInt | "U" -> KU32 | "S" -> KStr | "B" -> KBool | "N" -> KInternal | _ -> failwith "kind"
+let kind_of = function "E" -> KEntry | "L" -> KList | "A" -> KAny | "I" -> KInt | "U" -> KU32 | "S" -> KStr | "B" -> KBool | "N" -> KInternal | _ -> failwith "kind"
 (* concurrent mode: search for a sequential order of the threads' operations that explains every
    observed result and the final state (linearizability w.r.t. the model) *)
 let run_conc (var : variant) reg g init_st (f : string array) (p0 : int) (impl : string) : string =
@@ -173,6 +176,49 @@ let run_conc (var : variant) reg g init_st (f : string array) (p0 : int) (impl :
     | _ -> "IMPL-LINE-UNPARSABLE"
   end
 
+let store_of_entries (txt : string) : store =
+  if txt = "-" then { leaves = []; conts = [] } else begin
+    let lv = ref [] and cs = ref [] in
+    List.iter (fun e ->
+        if e <> "" then begin
+          if e.[String.length e - 1] = '/' then cs := path_of_string (String.sub e 0 (String.length e - 1)) :: !cs
+          else begin
+            let i = String.rindex e '=' in
+            let pth = path_of_string (String.sub e 0 i) and v = String.sub e (i + 1) (String.length e - i - 1) in
+            let sv = (match value_of_token v with
+                | VInt z -> SInt z | VU32 z -> SInt z | VStr l -> SStr l | VBool b -> SBool b | VList l -> SList l
+                | VPtr -> failwith "ptr leaf") in
+            lv := (pth, sv) :: !lv
+          end
+        end) (String.split_on_char ',' txt);
+    { leaves = List.rev !lv; conts = List.rev !cs }
+  end
+let faults_of_token (ft : string) : faults =
+  let i = String.index ft ':' in
+  let k = int_of_string (String.sub ft 0 i) in
+  let fl = String.sub ft (i + 1) (String.length ft - i - 1) in
+  let has c = String.contains fl c in
+  let rbk = (match String.index_opt fl 'q' with
+      | Some j when j + 1 < String.length fl -> Char.code fl.[j + 1] - 48 | _ -> 0) in
+  { f_apply = nat_of_int k; f_rollback = nat_of_int rbk; f_test = has 't';
+    f_reload = nat_of_int (if has 'R' then 2 else if has 'r' then 1 else 0);
+    f_startup = has 's'; f_version = has 'v' }
+(* the order in which the implementation's walker emitted changes: "E:<path>=<value>" entries of its trace *)
+let emitted_of_impl (impl : string) (stepno : int) : (n list * value) list =
+  let steps = Str.split (Str.regexp_string " ; ") impl in
+  match List.nth_opt steps stepno with
+  | None -> []
+  | Some s ->
+    (match tokens s with
+     | _ :: tr :: _ when tr <> "-" ->
+       List.filter_map (fun e ->
+           if String.length e > 2 && String.sub e 0 2 = "E:" then begin
+             let body = String.sub e 2 (String.length e - 2) in
+             let i = String.rindex body '=' in
+             Some (path_of_string (String.sub body 0 i), value_of_token (String.sub body (i + 1) (String.length body - i - 1)))
+           end else None) (String.split_on_char ',' tr)
+     | _ -> [])
+
 let run_case (var : variant) (line0 : string) (impl : string) : string =
   let f0 = Array.of_list (tokens line0) in
   let conc = Array.length f0 > 0 && f0.(0) = "conc" in
@@ -183,7 +229,8 @@ let run_case (var : variant) (line0 : string) (impl : string) : string =
     let reg = ref [] in
     for _ = 1 to n do
       reg := { h_pat = pattern_of_string f.(!p); h_kind = kind_of f.(!p + 1); h_conts = csv_nats f.(!p + 2);
-               h_deps = csv_nats f.(!p + 3); h_frr = (f.(!p + 4) = "1") } :: !reg;
+               h_deps = csv_nats f.(!p + 3); h_frr = (f.(!p + 4) = "1");
+               h_typed = (let pat = f.(!p) in try ignore (Str.search_forward (Str.regexp_string "<*:") pat 0); true with Not_found -> false) } :: !reg;
       p := !p + 5
     done;
     let reg = List.rev !reg in
@@ -201,21 +248,9 @@ let run_case (var : variant) (line0 : string) (impl : string) : string =
     (* "init e1,e2,...": the projection of the initial running configuration *)
     let init_store =
       if !p + 1 < Array.length f && f.(!p) = "init" then begin
-        let es = String.split_on_char ',' f.(!p + 1) in
+        let st0 = store_of_entries f.(!p + 1) in
         p := !p + 2;
-        let lv = ref [] and cs = ref [] in
-        List.iter (fun e ->
-            if e <> "" then begin
-              if e.[String.length e - 1] = '/' then cs := path_of_string (String.sub e 0 (String.length e - 1)) :: !cs
-              else begin
-                let i = String.rindex e '=' in
-                let pth = path_of_string (String.sub e 0 i) and v = String.sub e (i + 1) (String.length e - i - 1) in
-                let sv = (match value_of_token v with
-                    | VInt z -> SInt z | VU32 z -> SInt z | VStr l -> SStr l | VBool b -> SBool b | VList l -> SList l) in
-                lv := (pth, sv) :: !lv
-              end
-            end) es;
-        { leaves = List.rev !lv; conts = List.rev !cs }
+        st0
       end else empty_store in
     let hidden = Hashtbl.fold (fun name i acc -> if String.length name > 0 && name.[0] = '~' then n_of_int i :: acc else acc) tbl [] in
     let g = { g_mss = mss; g_sv = intern "svlan"; g_cv = intern "cvlan"; g_hidden = hidden;
@@ -232,6 +267,7 @@ let run_case (var : variant) (line0 : string) (impl : string) : string =
       let st = ref (init_st) in
       let prev = ref (snapshot !st) in
       let out = ref [] in
+      let emitted = ref [] in
       let sid t = if t = "@" then (match !st.lock with Some o -> o | None -> !st.next_id) else n_of_decimal t in
       while !p < Array.length f do
         let o =
@@ -243,6 +279,24 @@ let run_case (var : variant) (line0 : string) (impl : string) : string =
             p := !p + 5; o
           | "t" -> let o = OTick (n_of_decimal f.(!p + 1)) in p := !p + 2; o
           | "b" -> let o = ORollback (n_of_decimal f.(!p + 1)) in p := !p + 2; o
+          | "l" ->
+            let add = store_of_entries f.(!p + 3) in
+            let drop = if f.(!p + 3) = "-" then [intern "~nothing"] else [intern "subscriber-groups"] in
+            let o = OLoad (sid f.(!p + 1), drop, add, emitted_of_impl impl (List.length !out)) in
+            p := !p + 4; emitted := (match o with OLoad (_, _, _, e) -> e | _ -> []); o
+          | "B" ->
+            let cfg = store_of_entries f.(!p + 2) in
+            let steps = if f.(!p + 3) = "-" then [] else
+                List.map (fun t ->
+                    let body = String.sub t 1 (String.length t - 1) in
+                    if t.[0] = 'E' then BEdit (store_of_entries body)
+                    else begin
+                      let i = String.rindex body '=' in
+                      BSet (path_of_string (String.sub body 0 i), value_of_token (String.sub body (i + 1) (String.length body - i - 1)))
+                    end) (String.split_on_char '+' f.(!p + 3)) in
+            let em = emitted_of_impl impl (List.length !out) in
+            let o = OBoot (cfg, steps, em, faults_of_token f.(!p + 1)) in
+            p := !p + 4; emitted := em; o
           | "m" ->
             let ft = f.(!p + 2) in
             let i = String.index ft ':' in
@@ -258,11 +312,15 @@ let run_case (var : variant) (line0 : string) (impl : string) : string =
           | _ -> failwith "bad op" in
         let ((st', r), evs) = step var reg g !st o in
         st := st';
+        let em = !emitted in
+        emitted := [];
         let cur = snapshot st' in
         let parts = ref [] in
         Array.iteri (fun i c -> if c <> !prev.(i) then parts := (comp_names.(i) ^ "=" ^ c) :: !parts) cur;
         prev := cur;
-        let tr = match evs with [] -> "-" | l -> String.concat "," (List.map show_ev l) in
+        let etr = if r = RInadmissible then ["INADMISSIBLE-EMISSION"]
+          else List.map (fun (pth, v) -> "E:" ^ string_of_path pth ^ "=" ^ token_of_value v) em in
+        let tr = match etr @ List.map show_ev evs with [] -> "-" | l -> String.concat "," l in
         let stt = match List.rev !parts with [] -> "~" | l -> String.concat " " l in
         out := (show_res r ^ " " ^ tr ^ " " ^ stt) :: !out
       done;
